@@ -172,6 +172,17 @@ func canonJSON(b []byte) string {
 	return serial(n)
 }
 
+// c11Unm has the plain (context-free) UnmarshalJSON.
+type c11Unm struct{ got string }
+
+func (u *c11Unm) UnmarshalJSON(b []byte) error { u.got = string(b); return nil }
+
+type c11Dup struct {
+	A int
+	B string
+	U c11Unm
+}
+
 type QNInner struct{ X, Y, Z int }
 
 type QN struct {
@@ -253,6 +264,40 @@ func c11Pool(seed int64, idx int) []c11Call {
 				return h.encBuf.String() + "|" + errClassStr(err)
 			})
 		}
+	}
+	// every remaining encoding entry point, on a few values (they all draw their context from the
+	// same pool as the calls above, options included)
+	for i, v := range vals {
+		if i%4 != 0 {
+			continue
+		}
+		v := v
+		add("Encoder(reused).EncodeContext:"+v.desc, false, func(h *c11Handles) string {
+			h.encBuf.Reset()
+			err := h.enc.EncodeContext(context.Background(), v.x)
+			return h.encBuf.String() + "|" + errClassStr(err)
+		})
+		add("Encoder(reused).EncodeWithOption(Colorize):"+v.desc, false, func(h *c11Handles) string {
+			h.encBuf.Reset()
+			err := h.enc.EncodeWithOption(v.x, gojson.Colorize(scheme))
+			return h.encBuf.String() + "|" + errClassStr(err)
+		})
+		add("MarshalIndentWithOption(Colorize):"+v.desc, false, func(h *c11Handles) string {
+			b, err := gojson.MarshalIndentWithOption(v.x, "", " ", gojson.Colorize(scheme))
+			return string(b) + "|" + errClassStr(err)
+		})
+		add("MarshalContext(no query):"+v.desc, false, func(h *c11Handles) string {
+			b, err := gojson.MarshalContext(context.Background(), v.x)
+			return string(b) + "|" + errClassStr(err)
+		})
+		add("Encoder(fresh,SetIndent,SetEscapeHTML(false)):"+v.desc, false, func(h *c11Handles) string {
+			var buf bytes.Buffer
+			e := gojson.NewEncoder(&buf)
+			e.SetIndent(">", " ")
+			e.SetEscapeHTML(false)
+			err := e.Encode(v.x)
+			return buf.String() + "|" + errClassStr(err)
+		})
 	}
 	for _, v := range failing {
 		v := v
@@ -339,6 +384,56 @@ func c11Pool(seed int64, idx int) []c11Call {
 					return string(out) + "|" + errClassStr(err)
 				})
 			}
+		}
+	}
+	// every remaining decoding entry point, on documents whose result depends on the options in
+	// force: duplicate members (first-win vs last-win), a member with a plain UnmarshalJSON (the
+	// context option must not leak in), unknown members
+	dupDocs := []string{`{"A":1,"B":"x","A":2,"B":"y","U":[1],"zz":null}`, `{"B":"only","U":{"k":"v"}}`, `{"A":1,"A":"wrong-kind"}`, `{"A":3,"U":tru}`}
+	for di, d := range dupDocs {
+		d, fails := []byte(d), di >= 2
+		decEntries := []struct {
+			name string
+			f    func(dst any) error
+		}{
+			{"Unmarshal", func(dst any) error { return gojson.Unmarshal(d, dst) }},
+			{"UnmarshalNoEscape", func(dst any) error { return gojson.UnmarshalNoEscape(d, dst) }},
+			{"UnmarshalContext", func(dst any) error { return gojson.UnmarshalContext(context.Background(), d, dst) }},
+			{"UnmarshalWithOption(FirstWin)", func(dst any) error { return gojson.UnmarshalWithOption(d, dst, gojson.DecodeFieldPriorityFirstWin()) }},
+			{"Decoder.Decode", func(dst any) error { return gojson.NewDecoder(bytes.NewReader(d)).Decode(dst) }},
+			{"Decoder.DecodeContext", func(dst any) error {
+				return gojson.NewDecoder(bytes.NewReader(d)).DecodeContext(context.Background(), dst)
+			}},
+			{"Decoder.DecodeWithOption(FirstWin)", func(dst any) error {
+				return gojson.NewDecoder(bytes.NewReader(d)).DecodeWithOption(dst, gojson.DecodeFieldPriorityFirstWin())
+			}},
+			{"Decoder(UseNumber,DisallowUnknownFields)", func(dst any) error {
+				dec := gojson.NewDecoder(bytes.NewReader(d))
+				dec.UseNumber()
+				dec.DisallowUnknownFields()
+				return dec.Decode(dst)
+			}},
+		}
+		for _, e := range decEntries {
+			e := e
+			add(fmt.Sprintf("%s:dup-doc%d", e.name, di), fails, func(h *c11Handles) string {
+				var dst c11Dup
+				err := e.f(&dst)
+				out := fmt.Sprintf("%d|%s|%s", dst.A, dst.B, dst.U.got)
+				if err != nil {
+					out = ""
+				}
+				return out + "|" + errClassStr(err)
+			})
+			add(fmt.Sprintf("%s:dup-doc%d:iface", e.name, di), fails, func(h *c11Handles) string {
+				var dst any
+				err := e.f(&dst)
+				out, _ := stdjson.Marshal(dst)
+				if err != nil {
+					out = nil
+				}
+				return string(out) + "|" + errClassStr(err)
+			})
 		}
 	}
 	utilDocs := [][]byte{gen.Doc(r, 3), gen.Doc(r, 3), []byte(`{"a":[1,2,{"b":"<x>"}]} `), []byte(`[1,2`), []byte(`{"a":}`), []byte(big[:200]), []byte(`"` + big[:3000] + `"`)}
